@@ -179,6 +179,8 @@ func main() {
 	}
 	sm := strmap.NewFromSlice(kk, vv)
 	s2s := strmap.NewStr2StrFromSlice(kk, vs)
+	small := strmap.NewFromSlice(kk[:12], vv[:12])
+	var smallTexts [16]string // the first String() calls on this map happen concurrently
 	var wg sync.WaitGroup
 	for g := 0; g < 16; g++ {
 		wg.Add(2)
@@ -201,10 +203,26 @@ func main() {
 				if _, ok := sm.Get("absent-" + kk[i]); ok {
 					fail("shared StrMap.Get found an absent key")
 				}
+				// every query of a loaded map is read-only: Len, Item and String too
+				if k, v := sm.Item(i); sm.Len() != 2000 || v < 0 || v >= 2000 || k != kk[v] {
+					fail("shared StrMap.Len/Item wrong under concurrency")
+				}
+				if it%64 == 0 {
+					if t := small.String(); smallTexts[g] == "" {
+						smallTexts[g] = t
+					} else if t != smallTexts[g] || fmt.Sprint(small) != t {
+						fail("shared StrMap.String changes under concurrency")
+					}
+				}
 			}
 		}(g)
 	}
 	wg.Wait()
+	for g := range smallTexts {
+		if smallTexts[g] != smallTexts[0] || len(smallTexts[g]) < 12*8 {
+			fail("shared StrMap.String differs between goroutines")
+		}
+	}
 	if failures > 0 {
 		os.Exit(1)
 	}
